@@ -28,6 +28,8 @@ type Tape struct {
 	FailShort int
 	failArmed bool
 	fired     bool
+	// FailSet: read numbers that fail (each once, delivering nothing), in addition to FailAt
+	FailSet map[int]bool
 }
 
 // Fired reports whether the armed failure was actually returned to a reader.
@@ -68,6 +70,11 @@ func (t *Tape) Read(p []byte) (int, error) {
 	t.mu.Lock()
 	defer t.mu.Unlock()
 	k := len(t.Reads)
+	if t.FailSet[k] {
+		t.Reads = append(t.Reads, TapeRead{Off: t.Off})
+		t.fired = true
+		return 0, ErrEntropy
+	}
 	if t.failArmed && k == t.FailAt {
 		n := t.FailShort
 		if n > len(p) {
